@@ -423,6 +423,8 @@ func init() {
 			c.ruleInputImmutable("E2c.input", []string{"pkg/packet/rtr"}, 4)
 			c.ruleRTRHandled()
 			c.ruleSessionChangeDetected()
+			c.ruleConfedPair("E4.confed-pair")
+			c.ruleROADeleteGuarded("E6.roa-delete-guarded")
 		},
 	})
 }
